@@ -58,7 +58,7 @@ pub fn sequence(input: Input<'_>) -> ParserResult<'_, ASN1Type> {
                         skip_ws_and_comments(sequence_component),
                         optional_comma,
                     )),
-                    opt(terminated(extension_marker, opt(char(COMMA)))),
+                    opt(terminated(extension_marker, optional_comma)),
                     opt(many0(terminated(
                         skip_ws_and_comments(alt((extension_group, sequence_component))),
                         optional_comma,
